@@ -7,14 +7,15 @@ from .common import Case, HELD, VIOLATED, INCONCLUSIVE, h, rng
 ID = "C06"
 LEVEL = "exploration"
 BUILDS = ["rel"]
-BUDGET_S = {"quick": 150, "thorough": 3000}
+BUDGET_S = {"quick": 400, "thorough": 3000}
 MAXLEN = {"quick": 4, "thorough": 5}
 EXHAUSTIVE = {"quick": "all line sequences of length <=4 over the per-mode alphabets x directions x pattern modes x formats",
               "thorough": "all line sequences of length <=5 over the per-mode alphabets x directions x pattern modes x formats"}
 
 ALPHA = {
     "none": ["a", "b", "ab", "  a", "a  ", "", "   ", "2", "10", "9.5", "-3", "2.0", "\u3000b", "\u00a0"],
-    "group": ["id: a", "id: b", "id: ab", "  id: a", "id: a  ; x", "", "   ", "id: 2", "id: 10", "other", "id:", "zz id: b"],
+    "group": ["id: a", "id: b", "id: ab", "  id: a", "id: a  ; x", "", "   ", "id: 2", "id: 10", "other", "id:", "zz id: b",
+              "a id: a"],      # the key's text also occurs earlier on the line, outside the capture
     "plain": ["x a", "y b", "ab", "  a", "a  ", "", "   ", "q 2", "10", "z 9.5", "k\ta", "b"],
 }
 ALPHA["group2"] = ALPHA["group"]
@@ -156,8 +157,9 @@ def run_job(job, ctx):
         blocks = []
         for j in range(40):
             blocks.append(_random_block(r))
+        _second_validator(blocks)
         eol = "\r\n" if job["i"] % 3 == 0 else "\n"
-        for c in vbatch.run_batch(ctx, blocks, "hash", "keep-sorted", model, eol=eol, bom=(job["i"] % 3 == 1), sig_prefix="C06",
+        for c in vbatch.run_batch(ctx, blocks, "cm" if job["i"] % 4 == 2 else "hash", "keep-sorted", model, eol=eol, bom=(job["i"] % 3 == 1), ignore_codes=("line-count",), sig_prefix="C06",
                                   nontrivial_fn=_nontrivial, sets_fn=_sets):
             acc.add(c)
     return acc.to_cases(h(job))
@@ -165,6 +167,13 @@ def run_job(job, ctx):
 
 WORDS = ["alpha", "beta", "Beta", "gamma", "delta", "épée", "zeta", "Zeta", "日本", "ß", "a", "aa", "ab", "b", "_x", "10", "9", "100",
          "ñ", "z", "é", "e", "f1", "f10", "f2"]
+
+
+def _second_validator(blocks):
+    """Every fifth block also carries a violated rule of another synchronous validator: two validators report on the same file."""
+    for j, b in enumerate(blocks):
+        if j % 5 == 2 and any(l.strip() for l in b.lines):      # not the first block: the main validator is detected (and joined) first
+            b.attrs = list(b.attrs) + [("line-count", "<1")]
 
 
 def _random_block(r):
